@@ -132,48 +132,58 @@ func (d *Dir) Feed(p []byte) {
 		if (ftype == http2.FrameHeaders || ftype == http2.FrameContinuation) && flags&http2.FlagHeadersEndHeaders == 0 {
 			continue
 		}
-		fr, err := d.fr.ReadFrame()
-		if err != nil {
-			if _, ok := err.(http2.StreamError); ok {
-				// malformed header block for one stream: report it as an
-				// invalid HEADERS event and go on
-				se := err.(http2.StreamError)
-				d.emit(&Frame{Type: http2.FrameHeaders, StreamID: se.StreamID, HdrInvalid: true, Fragments: d.frags})
-				d.frags = nil
-				continue
-			}
-			d.Dead, d.DeadWhy = true, err.Error()
+		// Read everything that was handed to the framer: normally exactly one
+		// frame (HEADERS+CONTINUATIONs are merged), but when the framer rejects
+		// a HEADERS frame itself with a stream error it consumes only that
+		// frame and the buffered CONTINUATIONs must not stay behind (they
+		// would shift every later event by one frame).
+		for d.rd.Len() > 0 && !d.Dead {
+			d.readOne()
+		}
+	}
+}
+
+func (d *Dir) readOne() {
+	fr, err := d.fr.ReadFrame()
+	if err != nil {
+		if se, ok := err.(http2.StreamError); ok {
+			// malformed header block for one stream: report it as an
+			// invalid HEADERS event and go on
+			d.emit(&Frame{Type: http2.FrameHeaders, StreamID: se.StreamID, HdrInvalid: true, Fragments: d.frags})
+			d.frags = nil
 			return
 		}
-		d.FrameCnt++
-		h := fr.Header()
-		ev := &Frame{Type: h.Type, Flags: h.Flags, StreamID: h.StreamID, Length: int(h.Length)}
-		switch f := fr.(type) {
-		case *http2.DataFrame:
-			ev.Data = f.Data()
-		case *http2.MetaHeadersFrame:
-			ev.Type = http2.FrameHeaders
-			ev.Flags = f.HeadersFrame.Flags
-			ev.StreamID = f.HeadersFrame.StreamID
-			ev.Length = int(f.HeadersFrame.Length)
-			ev.Fields = f.Fields
-			ev.HdrTrunc = f.Truncated
-			ev.Fragments = d.frags
-			d.frags = nil
-		case *http2.SettingsFrame:
-			f.ForeachSetting(func(s http2.Setting) error { ev.Settings = append(ev.Settings, s); return nil })
-		case *http2.WindowUpdateFrame:
-			ev.Increment = f.Increment
-		case *http2.RSTStreamFrame:
-			ev.ErrCode = f.ErrCode
-		case *http2.GoAwayFrame:
-			ev.ErrCode, ev.LastStreamID = f.ErrCode, f.LastStreamID
-			ev.DebugData = append([]byte{}, f.DebugData()...)
-		case *http2.PingFrame:
-			ev.PingData = f.Data
-		}
-		d.emit(ev)
+		d.Dead, d.DeadWhy = true, err.Error()
+		return
 	}
+	d.FrameCnt++
+	h := fr.Header()
+	ev := &Frame{Type: h.Type, Flags: h.Flags, StreamID: h.StreamID, Length: int(h.Length)}
+	switch f := fr.(type) {
+	case *http2.DataFrame:
+		ev.Data = f.Data()
+	case *http2.MetaHeadersFrame:
+		ev.Type = http2.FrameHeaders
+		ev.Flags = f.HeadersFrame.Flags
+		ev.StreamID = f.HeadersFrame.StreamID
+		ev.Length = int(f.HeadersFrame.Length)
+		ev.Fields = f.Fields
+		ev.HdrTrunc = f.Truncated
+		ev.Fragments = d.frags
+		d.frags = nil
+	case *http2.SettingsFrame:
+		f.ForeachSetting(func(s http2.Setting) error { ev.Settings = append(ev.Settings, s); return nil })
+	case *http2.WindowUpdateFrame:
+		ev.Increment = f.Increment
+	case *http2.RSTStreamFrame:
+		ev.ErrCode = f.ErrCode
+	case *http2.GoAwayFrame:
+		ev.ErrCode, ev.LastStreamID = f.ErrCode, f.LastStreamID
+		ev.DebugData = append([]byte{}, f.DebugData()...)
+	case *http2.PingFrame:
+		ev.PingData = f.Data
+	}
+	d.emit(ev)
 }
 
 func (d *Dir) emit(ev *Frame) {
